@@ -61,7 +61,7 @@ void SimulateAvr8::reset()
   sreg = 0;
   break_point = -1;
 
-  set_sp(ram_size);
+  set_sp(ram_size - 1);
 }
 
 void SimulateAvr8::push(uint32_t value)
